@@ -451,3 +451,40 @@ def check_c09(stmts):
         if shape:
             return ('shape', f'{shape[0][0]}:{shape[0][1]}', f'{shape} in {str(s)!r}')
     return None
+
+
+# ------------------------------------------------------------------ C06 / C08 significant-token signature
+
+import re as _re
+
+_NL = _re.compile(r'\r\n|\r|\n')
+
+
+def norm_comment(val):
+    """the serializer's stated normalisation: line-end style and blanks before a line end"""
+    return '\n'.join(ln.rstrip() for ln in _NL.split(val)).rstrip()
+
+
+def sig(text, keep_types=False):
+    """Significant-token signature by re-tokenising with the real lexer."""
+    from sqlparse import lexer, tokens as T
+    out = []
+    for tt, val in lexer.tokenize(text):
+        if is_ws_type(tt):
+            continue
+        if is_comment_type(tt):
+            val = norm_comment(val)
+        elif tt_in(tt, T.Keyword) or tt_in(tt, T.Operator.Comparison) or tt_in(tt, T.Name.Builtin):
+            val = ' '.join(val.split())
+        out.append((tname(tt), val) if keep_types else val)
+    return out
+
+
+def first_diff(a, b):
+    for i, (x, y) in enumerate(zip(a, b)):
+        if x != y:
+            return i, x, y
+    if len(a) != len(b):
+        i = min(len(a), len(b))
+        return i, (a[i] if i < len(a) else None), (b[i] if i < len(b) else None)
+    return None
